@@ -1,0 +1,6 @@
+//go:build !verif
+// +build !verif
+
+package mqtt
+
+func verifPoint(string, interface{}) {}
